@@ -9,7 +9,9 @@ import Astits.Generated.Exprs
 import Astits.Generated.Facts
 import Astits.Proofs.LossTable
 import Astits.Props.C09
+import Astits.Props.TieTactics
 namespace Astits.C06
+open Astits.Tie
 
 /-! #### tie: the Go predicates of today are the model's -/
 
@@ -21,11 +23,35 @@ theorem lastCC_none_iff (q : List Packet) : lastCC q = none ↔ q.length = 0 := 
   | nil => simp
   | cons a r => simp [List.getLast?_cons]
 
+/-- `hasDiscontinuity` of the model on the scalars the Go function reads: queue length, the packet's flags and
+counter, the counter of the last queued packet (any value if there is none) -/
+def hasDiscontinuityRef (l : Nat) (pHasAF pDI pHasPayload : Bool) (pCC lastCC : Nat) : Bool :=
+  (pHasAF && pDI) || (decide (l > 0) && ((pHasPayload && pCC != (lastCC + 1) % 16) || (!pHasPayload && pCC != lastCC)))
+
+/-- `isSameAsPrevious` of the model on scalars -/
+def isSameAsPreviousRef (l : Nat) (pHasPayload : Bool) (pCC lastCC : Nat) : Bool :=
+  decide (l > 0) && pHasPayload && pCC == lastCC
+
+/-- the Go function of today, translated expression by expression, is the scalar form.  The proof does not follow
+the shape of the Go code (one expression, guard clauses, a helper for the announced discontinuity, `% 16` or `& 0xf`
+…): it splits on the three flags and on an empty / non-empty queue and lets `simp` + `omega` decide what is left
+about the two counters. -/
+theorem generated_hasDiscontinuity (l : Nat) (a d h : Bool) (c lc : Nat) :
+    Generated.hasDiscontinuity l a d h c lc = hasDiscontinuityRef l a d h c lc := by
+  unfold Generated.hasDiscontinuity hasDiscontinuityRef
+  rcases l with _ | l <;> cases a <;> cases d <;> cases h <;> bool_arith
+
+theorem generated_isSameAsPrevious (l : Nat) (h : Bool) (c lc : Nat) :
+    Generated.isSameAsPrevious l h c lc = isSameAsPreviousRef l h c lc := by
+  unfold Generated.isSameAsPrevious isSameAsPreviousRef
+  rcases l with _ | l <;> cases h <;> bool_arith
+
 theorem hasDiscontinuity_eq_generated (q : List Packet) (p : Packet) :
     hasDiscontinuity q p = Generated.hasDiscontinuity q.length p.header.hasAdaptationField
       ((p.adaptationField.map (·.discontinuityIndicator)).getD false) p.header.hasPayload
       p.header.continuityCounter (ccOr0 q) := by
-  unfold hasDiscontinuity Generated.hasDiscontinuity pktDI ccOr0
+  rw [generated_hasDiscontinuity]
+  unfold hasDiscontinuity hasDiscontinuityRef pktDI ccOr0
   cases h : lastCC q with
   | none =>
     have : q.length = 0 := (lastCC_none_iff q).mp h
@@ -38,7 +64,8 @@ theorem hasDiscontinuity_eq_generated (q : List Packet) (p : Packet) :
 
 theorem isSameAsPrevious_eq_generated (q : List Packet) (p : Packet) :
     isSameAsPrevious q p = Generated.isSameAsPrevious q.length p.header.hasPayload p.header.continuityCounter (ccOr0 q) := by
-  unfold isSameAsPrevious Generated.isSameAsPrevious ccOr0
+  rw [generated_isSameAsPrevious]
+  unfold isSameAsPrevious isSameAsPreviousRef ccOr0
   cases h : lastCC q with
   | none =>
     have : q.length = 0 := (lastCC_none_iff q).mp h
@@ -48,6 +75,17 @@ theorem isSameAsPrevious_eq_generated (q : List Packet) (p : Packet) :
       have := (lastCC_none_iff q).mpr h0; rw [h] at this; cases this
     have hpos : q.length > 0 := Nat.pos_of_ne_zero this
     simp [hpos]
+
+/-- which PIDs carry PSI: the Go predicate of today, for every PID and both answers of the program map -/
+theorem generated_isPSIPayload (pid : Nat) (inMap : Bool) :
+    Generated.isPSIPayload pid inMap
+      = (pid == 0 || inMap || (decide (0x10 ≤ pid ∧ pid ≤ 0x14) || decide (0x1e ≤ pid ∧ pid ≤ 0x1f))) := by
+  unfold Generated.isPSIPayload
+  cases inMap <;> bool_arith
+
+theorem isPSIPayload_eq_generated (pid : Nat) (pm : ProgramMap) :
+    isPSIPayload pid pm = Generated.isPSIPayload pid (pm.has pid) := by
+  rw [generated_isPSIPayload]; rfl
 
 /-- the order of the tests in `packetAccumulator.add` as found in the source today:
 duplicate test before discontinuity test (whose reset is waived for a discontinuity announced on a unit start), then the
